@@ -298,9 +298,11 @@ def step(ctx, rng, t, m, log):
         m = M.TM(m.chars[slice(a, b)], m.base)
     elif op in ("pad", "pad_left", "pad_right"):
         count = rng.choice([0, 1, 2, 5])
-        ch = rng.choice([" ", " ", "-", "漢"])
+        ch = rng.choice([" ", " ", "-", "漢", rng.choice(M.STRIP)])
         log.append([op, count, ch])
         getattr(t, op)(count, ch)
+        if ch in M.STRIP:
+            count = 0          # a fill character that Text strips from its content adds nothing (and moves nothing)
         if op in ("pad", "pad_left"):
             m.pad_left(count, ch)
         if op in ("pad", "pad_right"):
@@ -505,7 +507,27 @@ DERIVING_OPS = {"split", "divide", "fit", "index", "slice", "copy", "add", "join
 
 def wl_histories(ctx, rng, case_no):
     t, m = build_pair(rng, 14, controls=0.25)
-    log = [["construct", m.plain, repr(t.spans), str(t.style)]]
+    sibling = None
+    if rng.random() < 0.15:
+        # the spans handed to the constructor as a list - the same list object to a second Text - with some spans
+        # reaching or lying beyond the end of the text
+        from rich.text import Span, Text
+        extra = []
+        for _ in range(rng.randint(0, 2)):
+            rec = rand_style(rng)
+            a = len(m) + rng.randint(0, 4)
+            extra.append(Span(a, a + rng.randint(0, 5), G.build(rec)))
+        if extra:
+            # (spans beyond the end style nothing; what they would do to characters appended LATER is nobody's
+            # contract, so this text is only looked at, not edited)
+            probe = Text(m.plain, style=t.style, spans=list(t.spans) + extra)
+            if not compare(ctx, probe, m, [["construct", m.plain, repr(probe.spans), str(probe.style)]], "construct"):
+                ctx.case_done(("h", repr(probe.spans), m.plain), False)
+                return
+        shared = list(t.spans)
+        t = Text(m.plain, style=t.style, spans=shared)
+        sibling = (Text("sibling text!", spans=shared), [Span(s.start, s.end, s.style) for s in shared])
+    log = [["construct", m.plain, repr(t.spans), str(t.style)] + (["spans-list-shared-with-a-second-Text"] if sibling else [])]
     if not compare(ctx, t, m, log, "construct"):
         ctx.case_done(("h", repr(log)), False)
         return
@@ -518,6 +540,10 @@ def wl_histories(ctx, rng, case_no):
         ctx.hist("ops", op)
         done += 1
         if not ok or t is None:
+            break
+        if sibling is not None and sibling[0].spans != sibling[1]:
+            ctx.violation("edit-of-one-Text-changed-another-built-from-the-same-spans-list:" + op,
+                          {"log": log, "sibling_spans_now": repr(sibling[0].spans), "were": repr(sibling[1])})
             break
         if op in DERIVING_OPS and t is not before_t:
             # the operation returned new object(s): the source keeps its value whatever is done to the result
